@@ -120,6 +120,8 @@ def apply_term_op(ctx, op):
         term = ctx.get(op['name'])
         if term is not None:
             term.cache = rm.resolve(term.raw, ctx)[0]
+    elif k == 'erase':
+        ctx.pop(op['name'], None)
 
 
 def build_case(rnd, hostile):
@@ -193,6 +195,20 @@ def build_case(rnd, hostile):
         for other in rnd.sample([t['name'] for t in terms], min(2, len(terms))):
             ops.append({'op': 'ctx.term', 'ctx': 'c', 'name': other, 'k': 'update', 'forms': ['sing,nomn', 'plur,gent', 'sing,datv']})
             plan.append(['update'])
+    if rnd.random() < 0.4:
+        # entities leave and enter the context object (or are replaced by a new term object) while the first manager stays alive
+        for _ in range(rnd.randint(1, 3)):
+            nm = rnd.choice(ENTITIES)
+            r = rnd.random()
+            if r < 0.45:
+                ops.append({'op': 'ctx.term', 'ctx': 'c', 'name': nm, 'k': 'erase'})
+                plan.append(['erase-term'])
+            if r > 0.3:
+                ops.append({'op': 'ctx.term', 'ctx': 'c', 'name': nm, 'k': 'settext', 'raw': rnd.choice(['пришелец', 'late ' + nm, 'человек'])})
+                plan.append(['settext'])
+    # the first manager, alive through all of the above, resolves again; then a fresh one: both see the current context
+    ops.append({'op': 'refs.step', 'm': 'm', 'k': 'resolve', 'text': text})
+    plan.append(['resolve3'])
     ops.append({'op': 'refs.resolve', 'ctx': 'c', 'm': 'm2', 'text': text})
     plan.append(['resolve2'])
     return core.case(ops, kind='session', text=text, plan=plan)
@@ -240,7 +256,7 @@ def judge(res, cs, cr):
         if k == 'ctxnew':
             for t in op['terms']:
                 ctx[t['name']] = rm.Term(t['raw'], t.get('resolved', ''))
-        elif k in ('setform', 'settext', 'update'):
+        elif k in ('setform', 'settext', 'update', 'erase-term'):
             apply_term_op(ctx, op)
         if k in ('setform', 'settext', 'update'):
             term = ctx.get(op['name'])
@@ -265,7 +281,7 @@ def judge(res, cs, cr):
                     viol('extract', f'ExtractAll({text!r}) -> {got} expected {exp}')
                 res.count('judged', 1 + len(exp))
                 res.count('refs_expected', len(exp))
-        elif k in ('resolve', 'resolve2'):
+        elif k in ('resolve', 'resolve2', 'resolve3'):
             exp_text, exp_refs, spec = rm.resolve(text, ctx)
             got_text = unbytes(ev['resolved'])
             if spec:
@@ -283,7 +299,7 @@ def judge(res, cs, cr):
             for r in ev['refs']:
                 if got_text[r['pos'][0]:r['pos'][1]] != unbytes(r['resolved']) or r['pos'][0] > r['pos'][1]:
                     viol('range-invariant', f"after Resolve({text!r}): range {r['pos']} does not delimit {unbytes(r['resolved'])!r} in {got_text!r}")
-            if k == 'resolve':
+            if k in ('resolve', 'resolve3'):
                 mgr_text = got_text
                 mgr_refs = ev['refs']
         elif k in ('insert', 'erase') and mgr_text is None:
